@@ -220,4 +220,92 @@ def Graph.withChildren (g : Graph N) (ch : N → List N)
 
 end
 
+/-! ### Sequences of calls on one walker object -/
+
+section
+variable {M N R E : Type} [DecidableEq N] [MemoLike M N R]
+
+/-- consecutive `walk` calls on the same walker object -/
+def walks (g : Graph N) (direct : N → Bool) (f : Nat → N → List R → Except E R)
+    (inval shortcut : Bool) (fuel : Nat) : List N → WState M N → List (WOut E R) × WState M N
+  | [], s => ([], s)
+  | q :: qs, s =>
+    let r := walk g direct f inval shortcut fuel q s
+    let rs := walks g direct f inval shortcut fuel qs r.2
+    (r.1 :: rs.1, rs.2)
+
+end
+
+/-! ### `FormulaManager.create_node`, reduced to what matters for C15
+
+    formula.py:  content in self.formulae ? n = self.formulae[content] : (n = FNode(content); self.formulae[content] = n)
+                 self._do_type_check(n)            -- env.stc.get_type(n): the type checker is a DagWalker, memo kept
+    A node of the model is a *content* (hash consing makes contents and nodes correspond one to one; node ids are
+    not modelled).  The type checker computes `Option T` (`None` = ill-typed) and `get_type` raises on `None`. -/
+
+section
+variable {M N T E : Type} [DecidableEq N] [MemoLike M N (Option T)]
+
+structure Mgr (M N : Type) where
+  table : List N            -- keys of `formulae`
+  stc   : WState M N        -- the environment's type checker
+
+inductive CreateErr (E : Type) where
+  | illTyped                -- PysmtTypeError raised by get_type
+  | walker (e : Err E)      -- an exception escaping from the type checker's walk
+  | fuel
+  deriving DecidableEq, Repr
+
+def createNode (g : Graph N) (tc : Nat → N → List (Option T) → Except E (Option T)) (fuel : Nat)
+    (c : N) (s : Mgr M N) : Except (CreateErr E) N × Mgr M N :=
+  let table' := if c ∈ s.table then s.table else c :: s.table          -- inserted *before* the type check
+  let r := walk g (fun _ => false) tc false true fuel c s.stc
+  let s' : Mgr M N := ⟨table', r.2⟩
+  match r.1 with
+  | .ok (some _) => (.ok c, s')
+  | .ok none => (.error .illTyped, s')
+  | .raise e => (.error (.walker e), s')
+  | .fuel => (.error .fuel, s')
+
+end
+
+/-! ### The constant caches of `FormulaManager.Int` / `Real` (F07)
+
+    Python dictionaries look keys up by `==`/`hash`, and `1 == 1.0 == True`.  `PyNum` are the argument values that
+    matter: an `int`, an integral `float`, a `bool`; `val` is the number they compare equal to.  The result of
+    `Int(v)` is the payload of the returned node (hash consing: the payload determines the node). -/
+
+inductive PyNum where
+  | int (i : Int)
+  | float (i : Int)
+  | bool (b : Bool)
+  deriving DecidableEq, Repr
+
+def PyNum.val : PyNum → Int
+  | .int i => i
+  | .float i => i
+  | .bool b => if b then 1 else 0
+
+/-- `is_python_integer`: `type(v) == int` -/
+def PyNum.isInt : PyNum → Bool
+  | .int _ => true
+  | _ => false
+
+/-- `int_constants`: value ↦ payload of the cached node -/
+abbrev ConstCache := List (Int × Int)
+
+/-- `Int()` after the repair: validate, then consult the cache (keyed on the validated value) -/
+def mkInt (v : PyNum) (c : ConstCache) : Except Unit Int × ConstCache :=
+  if v.isInt then
+    match c.lookup v.val with
+    | some n => (.ok n, c)
+    | none => (.ok v.val, (v.val, v.val) :: c)
+  else (.error (), c)
+
+/-- `Int()` before the repair: the cache is consulted first -/
+def mkIntOld (v : PyNum) (c : ConstCache) : Except Unit Int × ConstCache :=
+  match c.lookup v.val with
+  | some n => (.ok n, c)
+  | none => if v.isInt then (.ok v.val, (v.val, v.val) :: c) else (.error (), c)
+
 end PySMT.Walker
